@@ -49,6 +49,11 @@ Orderings == {
   <<This0, T(2024, 5, 1, 12, 0, 1, 0, 0)>>,                                     \* +1 s
   <<T(2024, 5, 1, 12, 0, 0, 0, 7200), T(2024, 5, 1, 11, 0, 0, 0, 0)>>,          \* next later although local fields smaller
   <<T(2024, 5, 1, 12, 0, 0, 0, -7200), T(2024, 5, 1, 13, 0, 0, 0, 0)>>,         \* next earlier although local fields larger
+  <<T(1969, 12, 31, 23, 59, 58, 0, 0), T(1969, 12, 31, 23, 59, 58, 500000000, 0)>>,   \* before 1970: +0.5 s inside one second
+  <<T(1969, 12, 31, 23, 59, 58, 500000000, 0), T(1969, 12, 31, 23, 59, 59, 0, 0)>>,   \* before 1970: +0.5 s across a second boundary
+  <<T(1, 1, 1, 0, 0, 0, 999999999, 0), T(1, 1, 1, 0, 0, 1, 0, 0)>>,                   \* year 1
+  <<T(1969, 12, 31, 23, 59, 59, 999999999, 0), T(1970, 1, 1, 0, 0, 0, 0, 0)>>,        \* across the epoch
+  <<T(1970, 1, 1, 0, 0, 0, 0, 0), T(1970, 1, 1, 0, 0, 0, 1, 0)>>,                     \* at the epoch, 1 ns apart
   <<This0, Next0>> }
 
 GuardCases == { Case("crl-guards", [Base EXCEPT !.thisUpdate = o[1], !.nextUpdate = o[2], !.revoked = r, !.idp = i], ku, "ed25519", Kid("sha256")) :
